@@ -311,6 +311,10 @@ def _mem_replace(n):
             c = hir.simp(s0["init"])
             if isinstance(c, dict) and c.get("k") == "call" and (c.get("resolved") or c.get("callee")) == "core::mem::replace":
                 call, pat = c, s0["pat"]
+            elif isinstance(c, dict) and c.get("k") == "call" and (c.get("resolved") or c.get("callee")) == "core::mem::take" and c.get("ty") in INT_TYS \
+                    and len(c.get("args", [])) == 1:
+                # mem::take of an integer place is mem::replace(place, 0)
+                call, pat = dict(c, args=[c["args"][0], {"k": "lit", "t": "int", "v": 0, "ty": c.get("ty"), "ln": c.get("ln")}]), s0["pat"]
         elif isinstance(s0, dict) and s0.get("k") == "call" and (s0.get("resolved") or s0.get("callee")) == "core::mem::replace":
             call = s0
         if call is not None and len(call["args"]) == 2:
